@@ -189,6 +189,13 @@ def catalogue(rng, tier, dims=("homogeneous", "spatial_1D", "spatial_2D"), confs
             prog.update(start=10, rate=2.0 / 60, holds=[])
         if rng.random() < 0.4:
             over.setdefault("solution", {})["solid_fraction"] = rng.choice([0.02, 0.05, 0.1])
+        if rng.random() < 0.5:
+            # other solution / water constants (heavy water melts at 3.82 C; other solute, density, kinetics)
+            sol = over.setdefault("solution", {})
+            sol["T_eq"] = rng.choice([3.82, -0.5, 0, 1.0]); sol["rho_l"] = rng.choice([1000, 1050, 1105])
+            sol["k_f"] = rng.choice([1.853, 1.5, 2.05]); sol["M_s"] = rng.choice([0.3423, 0.18, 0.0584]); sol["cp_s"] = rng.choice([1240, 1500])
+            over.setdefault("water", {})["cp_i"] = rng.choice([2108, 2050])
+            over.setdefault("kinetics", {})["a"] = rng.choice([29.0, 26.0, 31.0])
         if wide_depression:
             # concentrated solution (depression > 1 K) in a tall, strongly cooled vial: at nucleation only part of the vial is
             # supercooled and some grid point lies between T_eq_l and T_m
